@@ -487,6 +487,12 @@ def run(prog, chk):
     if memrules.hash_iter_lookahead(prog, r11) < 8:
         raise Broken("fewer than 8 HASH_ITER loops found")
 
+    r14 = chk.rule("R14-no-release-of-an-unset-pointer", "a local pointer declared without an initialiser and set only by a callee that "
+                   "succeeded is not handed to free() / a *_free function on the path through that callee's failure", primary=False, floor=15)
+    from .. import uninitfree
+    if uninitfree.rule(prog, r14) < 15:
+        raise Broken("fewer than 15 locals set through an out-parameter found")
+
     r13 = chk.rule("R13-compacted-array-not-read-by-count", "an array filled only for the elements that pass a test, while a count "
                    "advances for every element, is not subscripted by an index run against that count in the callee that "
                    "receives both: the elements past the ones written are uninitialised (shared with C12 R13)",
